@@ -5,7 +5,7 @@ func init() {
 		Explanation: "Decides writer/reader agreement of the three hops: (R1) one Go type at both ends (CommonCniArgs.IPInfos vs the Unmarshal target of cni/ipam.Allocate); (R2) key agreement: JSON tag = IPInfosKey = key the plugin looks up; CniArgs.Common tag = the daemon's anonymous-struct tag; annotation key written by Bind = key read by the daemon; Bind's payload is json(allocateIP result); (R3) IPInfo field types cannot encode the separators, BuildCNIArgs/ParseCNIArgs agree on separators and split key/value with limit 2; (R4) every NetworkInfo created by resolveNetworks passes the loop copying every common.* key, IPInfoToResult takes address, mask and gateway from the same IPInfo, every decoded IPInfo becomes a result; (R5) allocateIP assigns cniArgs.Common.IPInfos a list built from the lookup entries and independent of the value decoded from the pod's existing annotation. (R7) gateway/VLAN/mask of a reported ip come from the pool the ip's table entry points to, created entries take pool and ip from the same unallocated entry; (R9) the allocator's and the lookup's per-range pickers both exclude ips already picked for an earlier range of the same request (k ranges, k distinct ips, also when ranges overlap). Does not decide end-to-end value equality for all configurations (a round trip over runtime values).",
 		Assumptions: []string{"JSON encoding of net.IP / IPNet / uint16 contains neither ';' nor an unquoted '=' before the first one"},
 		Run: func(c *Ctx) {
-			c.Rule("C13.R1", "writer/reader agreement of the ipinfos path", 11)
+			c.Rule("C13.R1", "writer/reader agreement of the ipinfos path", 6)
 			ruleArgsCodec(c, "C13.R1")
 			c.Rule("C13.R7", "gateway/VLAN come from the pool whose ranges contain the ip, also after a reload", 4)
 			ruleIPInfoFromPool(c, "C13.R7")
@@ -13,11 +13,11 @@ func init() {
 			ruleOnlyUnallocatedCreated(c, "C13.R7")
 			c.Rule("C13.R8", "plugin decoder: j-th vlan from the j-th IPInfo", 1)
 			ruleDecoderPerIP(c, "C13.R8")
-			c.Rule("C13.R6", "reported ips are the lookup for the full request, in its order", 3)
+			c.Rule("C13.R6", "reported ips are the lookup for the full request, in its order", 1)
 			ruleReportedInRequestOrder(c, "C13.R6")
-			c.Rule("C13.R9", "allocator and lookup pick distinct ips for the ranges of one request", 2)
+			c.Rule("C13.R9", "allocator and lookup pick distinct ips for the ranges of one request", 1)
 			rulePerRangePickersDistinct(c, "C13.R9")
-			c.Rule("C13.R4", "network selection copies all common args", 6)
+			c.Rule("C13.R4", "network selection copies all common args", 3)
 			ruleNetworkSelection(c, "C13.R4")
 		}})
 }
